@@ -593,7 +593,83 @@ func workerEnv(eng *props.Engine, w int) []string {
 	return env
 }
 
-var driverHooks = map[string]func(eng *props.Engine, tier string, seed uint64, runs int, agg *doneRec) ([]*violRec, error){}
+var driverHooks = map[string]func(eng *props.Engine, tier string, seed uint64, runs int, agg *doneRec) ([]*violRec, error){
+	"C06": crossProcessDigests,
+}
+
+// crossProcessDigests re-executes a prefix of the batch in fresh processes (at GOMAXPROCS 1, 4 and 16)
+// and compares, run by run, the digest of everything the parsers returned with the digest the worker
+// computed. A difference is a result that depends on the process it was computed in.
+func crossProcessDigests(eng *props.Engine, tier string, seed uint64, runs int, agg *doneRec) ([]*violRec, error) {
+	n := 160
+	if tier == "thorough" {
+		n = 4000
+	}
+	// only runs the workers finished (they may have stopped on the wall clock)
+	have := 0
+	for i := 0; i < n; i++ {
+		if _, ok := agg.Digests[i]; ok {
+			have = i + 1
+		}
+	}
+	n = have
+	if n == 0 {
+		return nil, nil
+	}
+	self, _ := os.Executable()
+	type res struct {
+		out string
+		err error
+	}
+	gmps := []string{"1", "4", "16"}
+	chunks := 5
+	results := make([][]res, len(gmps))
+	var wg sync.WaitGroup
+	for g := range gmps {
+		results[g] = make([]res, chunks)
+		for c := 0; c < chunks; c++ {
+			wg.Add(1)
+			go func(g, c int) {
+				defer wg.Done()
+				lo, hi := n*c/chunks, n*(c+1)/chunks
+				cmd := exec.Command(self, "digest", eng.Prop, tier, fmt.Sprint(seed), fmt.Sprint(hi), fmt.Sprint(lo), "sut")
+				cmd.Env = append(os.Environ(), "GOMAXPROCS="+gmps[g])
+				out, err := cmd.Output()
+				results[g][c] = res{string(out), err}
+			}(g, c)
+		}
+	}
+	wg.Wait()
+	var viols []*violRec
+	compared := 0
+	for g := range gmps {
+		for c := 0; c < chunks; c++ {
+			r := results[g][c]
+			if r.err != nil {
+				return nil, fmt.Errorf("digest child failed: %v", r.err)
+			}
+			for _, line := range strings.Split(strings.TrimSpace(r.out), "\n") {
+				f := strings.Fields(line)
+				if len(f) < 2 {
+					continue
+				}
+				i, _ := strconv.Atoi(f[0])
+				want, ok := agg.Digests[i]
+				if !ok || f[1] == "-" || want == "" {
+					continue
+				}
+				compared++
+				if f[1] != want {
+					viols = append(viols, &violRec{Run: i, RunSeed: sim.RunSeed(seed, eng.Name, i), Class: "cross-process", Signature: "C06:cross-process-digest",
+						Detail: fmt.Sprintf("run %d: a fresh process (GOMAXPROCS=%s) computed result digest %s, the worker computed %s for the same inputs and history", i, gmps[g], f[1], want)})
+				}
+			}
+		}
+	}
+	agg.Extra["cross_process_digests_compared"] = compared
+	agg.Probes["fresh-process-digest-compared"] = compared
+	return viols, nil
+}
 
 // postMortem turns a crashed worker (fatal runtime error in the library, e.g. concurrent map
 // access or stack overflow) into a violation when the crash can be attributed to a run.
@@ -714,6 +790,31 @@ func replay(args []string) int {
 		return 2
 	}
 	want, _ := rf.Violation["signature"].(string)
+	if cls, _ := rf.Violation["class"].(string); cls == "cross-process" {
+		// a result that depends on the process: recompute the run's digest in fresh processes
+		self, _ := os.Executable()
+		seen := map[string]bool{}
+		for k, gmp := range []string{"1", "4", "16", "2"} {
+			cmd := exec.Command(self, "digest", rf.Property, rf.Tier, fmt.Sprint(rf.Seed), fmt.Sprint(rf.Run+1), fmt.Sprint(rf.Run), "sut")
+			cmd.Env = append(os.Environ(), "GOMAXPROCS="+gmp)
+			out, err := cmd.Output()
+			if err != nil {
+				fmt.Fprintln(os.Stderr, "[verif] digest child failed:", err)
+				return 2
+			}
+			f := strings.Fields(string(out))
+			if len(f) >= 2 {
+				seen[f[1]] = true
+				fmt.Fprintf(os.Stderr, "   fresh process %d (GOMAXPROCS=%s): digest %s\n", k, gmp, f[1])
+			}
+		}
+		if len(seen) > 1 {
+			fmt.Printf("VIOLATION property=%s replay=%s\n", rf.Property, args[0])
+			return 1
+		}
+		fmt.Fprintln(os.Stderr, "[verif] replay: all fresh processes agree; not reproduced")
+		return 3
+	}
 	if eng.Race && os.Getenv("VERIF_RACE_LOG") == "" {
 		// re-exec under the race log configuration
 		self, _ := os.Executable()
@@ -808,13 +909,30 @@ func digest(args []string) {
 	prop, tier := args[0], args[1]
 	seed, _ := strconv.ParseUint(args[2], 10, 64)
 	n, _ := strconv.Atoi(args[3])
+	lo := 0
+	sut := false
+	if len(args) > 4 {
+		lo, _ = strconv.Atoi(args[4])
+	}
+	if len(args) > 5 && args[5] == "sut" {
+		sut = true
+	}
 	eng := props.Engines[prop]
 	saved := os.NewFile(uintptr(dupStdout()), "report")
 	props.Silence()
 	defer props.CleanupScratch()
-	for i := 0; i < n; i++ {
+	for i := lo; i < n; i++ {
 		t := sim.NewT(sim.RunSeed(seed, eng.Name, i))
 		v := runGuarded(eng, t, tier)
+		if sut {
+			// digest of what the system under test returned (C06 cross-process comparison)
+			d := t.Digest
+			if d == "" || v != nil {
+				d = "-"
+			}
+			fmt.Fprintf(saved, "%d %s\n", i, d)
+			continue
+		}
 		parts := []string{fmt.Sprint(t.Trace), strings.Join(t.Events, "\n")}
 		if v != nil {
 			parts = append(parts, v.Signature)
